@@ -65,6 +65,7 @@ def _strategy(cfg, compat):
         'payloads': st.lists(st.text(alphabet=VERB, min_size=1, max_size=10), min_size=12, max_size=12),
         'smart': st.booleans(), 'complete': st.booleans(),
         'order': st.lists(st.sampled_from(['html', 'latex', 'beamer', 'memoir', 'opml']), max_size=4),
+        'lang': st.sampled_from([0, 0, 0, 1, 2, 3, 4, 5, 6]),
     })
 
 
@@ -390,7 +391,7 @@ def check(case, ctx):
     # equal the fresh conversion of that format (a writer that edits the tree, or state kept between exports, shows here)
     fresh = {}
     for fmt in FORMATS:
-        r = w.convert(src, fmt, ext, api='sd')
+        r = w.convert(src, fmt, ext, case.get('lang', 0), api='sd')
         if r.status != 'ok':
             raise fail('convert:%s:%s' % (fmt, r.status), '')
         fresh[fmt] = r.out
@@ -398,6 +399,7 @@ def check(case, ctx):
     if order:
         w.call('pool', 'init')
         eid = w.call('enew', ext, src)[1]
+        w.call('elang', eid, case.get('lang', 0))
         try:
             for fmt in order:
                 got = w.call('eexport', eid, FMT[fmt])[1]
